@@ -76,7 +76,7 @@ def run(tw, tier, seed, only=None):
             samples.append(gen.graph_desc(G))
         if len(fails) > 20:
             break
-    return {"cases": cases, "nontrivial": nontriv, "failures": fails[:20], "samples": samples, "exhaustive": False,
+    return {"cases": cases, "nontrivial": nontriv, "failures": fails, "samples": samples, "exhaustive": False,
             "evaluations": tw.evaluations,
             "bound": "all ITS graphs on <= %d atoms over 2 elements x 4 order pairs (%d cases incl. the include-rule grid) + %d random ITS graphs <= %d atoms; "
                      "keep_mtg on/off, radii 0..3" % (nmax, exhaustive_n, cases - exhaustive_n, 7 if tier == "quick" else 9),
